@@ -1,8 +1,6 @@
 """Helpers shared by the table properties C08 / C09 / C10 (own file: vlib/common.py is not edited).
 
-build_driver_s: like common.build_driver, but compiles driver/conv_s.ml instead of driver/conv.ml
-(conv.ml annotates OCaml strings as `string`, which is shadowed by the extracted Coq `string` type
-as soon as a model that mentions Coq strings — Gen/TablesData.v — is extracted)."""
+Python reference lookups over the table dump, registry replay cases, C08 checkers and lookup cases."""
 import hashlib
 import json
 import os
@@ -13,44 +11,8 @@ from . import common
 
 
 def build_driver_s(name, extra_ml=()):
-    d = os.path.join(common.BUILD, "ml", name)
-    os.makedirs(d, exist_ok=True)
-    ext = os.path.join(common.COQ, "Extract", "Extract_%s.v" % name)
-    drv = os.path.join(common.VERIF, "driver", "%s_driver.ml" % name)
-    exe = os.path.join(d, name + "_driver")
-    with common.Lock("ml-" + name):
-        txt = open(ext).read()
-        mods = re.findall(r"Wbxml\.(\w+)\.(\w+)", txt)
-        targets = ["%s/%s.vo" % (a, b) for a, b in mods]
-        ok, lg = common.coq_make(targets)
-        if not ok:
-            raise common.BuildError("Coq build of model for extraction failed:\n" + lg[-3000:])
-        mls = ("conv_s.ml",) + tuple(extra_ml)
-        deps = [ext, drv] + [os.path.join(common.COQ, t) for t in targets] + [os.path.join(common.VERIF, "driver", m) for m in mls]
-        stamp = hashlib.sha256()
-        for f in deps:
-            stamp.update(open(f, "rb").read())
-        sfile = os.path.join(d, "stamp")
-        if os.path.exists(exe) and os.path.exists(sfile) and open(sfile).read() == stamp.hexdigest():
-            return exe
-        rc, out, err = common.sh(["coqc", "-Q", common.COQ, "Wbxml", "-w", "-all", ext, "-o",
-                                  os.path.join(d, "Extract_%s.vo" % name)], cwd=d)
-        if rc != 0:
-            raise common.BuildError("extraction failed:\n" + err[-3000:])
-        srcs = ["model.mli", "model.ml"]
-        for m in mls:
-            shutil.copy(os.path.join(common.VERIF, "driver", m), d)
-            srcs.append(m)
-        shutil.copy(drv, d)
-        srcs.append(os.path.basename(drv))
-        rc, out, err = common.sh(["ocamlfind", "ocamlopt", "-O3", "-w", "-a", "-package", "str", "-linkpkg"] + srcs + ["-o", exe], cwd=d)
-        if rc != 0:
-            rc, out, err = common.sh(["ocamlfind", "ocamlopt", "-w", "-a", "-package", "str", "-linkpkg"] + srcs + ["-o", exe], cwd=d)
-        if rc != 0:
-            raise common.BuildError("ocaml build failed:\n" + err[-3000:])
-        with open(sfile, "w") as f:
-            f.write(stamp.hexdigest())
-    return exe
+    """kept for compatibility: driver/conv.ml now writes OCaml strings as Stdlib.String.t, so the common builder works"""
+    return common.build_driver(name, extra_ml)
 
 
 # ----------------------------------------------------------------------------
